@@ -192,11 +192,16 @@ def sympy_to_python_fn(
 
     # Sympy prints sech, csch and coth by rewriting the whole expression in terms of
     # exp, which also turns x**2 inside their argument into exp(2*log(x)): a math
-    # domain error for negative x. Print them through cosh and sinh instead
+    # domain error for negative x. Print them through cosh and sinh instead. Likewise
+    # sec, csc and cot are rewritten in terms of cos, sin and tan, which turns a tanh
+    # inside their argument into -i*tan(i*x)
     expr = (
         expr.replace(sympy.sech, lambda arg: 1 / sympy.cosh(arg))
         .replace(sympy.csch, lambda arg: 1 / sympy.sinh(arg))
         .replace(sympy.coth, lambda arg: sympy.cosh(arg) / sympy.sinh(arg))
+        .replace(sympy.sec, lambda arg: 1 / sympy.cos(arg))
+        .replace(sympy.csc, lambda arg: 1 / sympy.sin(arg))
+        .replace(sympy.cot, lambda arg: sympy.cos(arg) / sympy.sin(arg))
     )
     # The same holds for their inverses, which are rewritten in terms of log: one of
     # them inside another comes out with complex intermediate values
